@@ -149,6 +149,25 @@ def run(ctx):
             ctx.count("family:" + fam)
             if any(p.n_sides % 2 for p in l.plaquettes): ctx.count("lattices_with_odd_plaquettes")
             if any(-1 in p.directions for p in l.plaquettes): ctx.count("lattices_with_backward_darts")
+    # ---- one value, many representations: dtype, memory layout, writability, container of the bond configuration must not matter and must be left untouched
+    import variants
+    for name, fam, l in cases[:: max(1, len(cases) // (25 if ctx.tier == "quick" else 200))]:
+        u = 1 - 2 * rng.integers(0, 2, size=l.n_edges)
+        try:
+            base_r, base_c = ff.fluxes_from_ujk(l, u), ff.fluxes_from_ujk(l, u, real=False)
+        except Exception:
+            continue
+        for lab, uv in variants.of_array(u):
+            keep = np.array(uv).copy()
+            try:
+                r, c = ff.fluxes_from_ujk(l, uv), ff.fluxes_from_ujk(l, uv, real=False)
+            except Exception as ex:
+                ctx.impl_violation(f"{name}: fluxes_from_ujk raises {type(ex).__name__}: {ex} when the bonds are passed as {lab}", dict(case=name, lattice=zoo.lat_to_json(l), u=u.tolist(), representation=lab)); break
+            if not (np.array_equal(r, base_r) and np.allclose(c, base_c, atol=1e-12)):
+                ctx.impl_violation(f"{name}: fluxes change when the same bonds are passed as {lab}", dict(case=name, lattice=zoo.lat_to_json(l), u=u.tolist(), representation=lab)); break
+            if not variants.untouched(lab, keep, uv):
+                ctx.impl_violation(f"{name}: fluxes_from_ujk modified its bond argument ({lab})", dict(case=name, lattice=zoo.lat_to_json(l), u=u.tolist(), representation=lab)); break
+            ctx.case((name, "repr", lab), nontrivial=True)
     # ---- churn: lattices built, used once and dropped, so that object addresses are re-used (stale state keyed on identity, e.g. id(lattice), shows up
     #      here and nowhere else: everything above keeps its lattices alive)
     import gc
